@@ -99,6 +99,8 @@ func zzLoop(pBound, nShapes, maxC, maxPR int) {
 	producers := 1 + nd.Choose("producers", maxPR)
 	rejectDir := nd.Choose("reject-dir", 2) == 1 && len(dirs) > 0
 	failFile := nd.Bool("fail-file")
+	failDir := len(dirs) > 0 && !rejectDir && nd.Bool("fail-dir")
+	cbFailed := false // some callback returned an error
 	// a listing error in the sub-directory (if there is one and it is entered)
 	failList := len(dirs) > 0 && !rejectDir && nd.Bool("fail-listing")
 	var walked filesystem.Filespace = fs
@@ -114,6 +116,9 @@ func zzLoop(pBound, nShapes, maxC, maxPR int) {
 			nd.Yield()
 			v.end()
 			if failFile {
+				v.mu.Lock()
+				cbFailed = true
+				v.mu.Unlock()
 				return injected
 			}
 			return nil
@@ -122,6 +127,12 @@ func zzLoop(pBound, nShapes, maxC, maxPR int) {
 			v.begin(p)
 			nd.Yield()
 			v.end()
+			if failDir {
+				v.mu.Lock()
+				cbFailed = true
+				v.mu.Unlock()
+				return injected
+			}
 			return nil
 		},
 		Consumers:  consumers,
@@ -164,13 +175,13 @@ func zzLoop(pBound, nShapes, maxC, maxPR int) {
 			nd.Assert(n <= 1, "C08/node-repeated-on-error")
 		}
 	}
-	if failFile && len(wantFiles) > 0 && !failList {
+	if cbFailed {
 		nd.Assert(len(errs) > 0, "C08/callback-error-reported")
 	}
 	if failList {
 		nd.Assert(len(errs) > 0, "C08/listing-error-reported")
 	}
-	if !failFile && !failList {
+	if !cbFailed && !failList {
 		nd.Assert(len(errs) == 0, "C08/no-spurious-error")
 	}
 	nd.Assert(v.maxRun <= consumers, "C08/more-callbacks-than-consumers")
